@@ -778,7 +778,8 @@ func (e *Env) Build(res []*GenResult) (driver string, err error) {
 				if m == nil {
 					continue
 				}
-				pkg := "ws/" + m[1]
+				// (some load errors - an invalid import path - name the file by its absolute path)
+				pkg := "ws/" + strings.TrimPrefix(m[1], e.WS+"/")
 				for _, r := range withCode {
 					if pkg == r.TargetImport || pkg == r.StructImport {
 						r.Compile += line + "\n"
